@@ -127,6 +127,15 @@ impl Prop for C08 {
     ].iter().enumerate() {
       out.push(Case { id: format!("forms;family=function;n={}", i), cell: "forms;family=function".into(), input: json!({"src": src, "syntax_only": true}) });
     }
+    // Mechdown prose: every inline element alone and nested inside every inline wrapper, in paragraph / list / quote / heading / table-cell frames
+    let atoms: [(&str, &str); 12] = [("word", "word"), ("link", "[the manual](docs/manual.html)"), ("code", "`x + 1`"), ("eval", "{x + 1}"), ("footref", "[^1]"), ("strong", "**strong text**"), ("emph", "*emphasised*"), ("under", "_underlined_"), ("strike", "~struck~"), ("high", "!!marked!!"), ("img", "![alt text](pic.png)"), ("two-links", "[a](b.html) and [c](d.html)")];
+    let wraps: [(&str, &str, &str); 6] = [("none", "", ""), ("emph", "*", "*"), ("strong", "**", "**"), ("under", "_", "_"), ("strike", "~", "~"), ("high", "!!", "!!")];
+    let frames: [(&str, &str, &str); 6] = [("para", "Some ", " here.\n"), ("list", "- item ", " end\n- second\n"), ("quote", "> quoted ", " end\n"), ("heading", "Title\n=====\n\n## About ", "\n\nBody text.\n"), ("cell", "| a | b |\n|---|---|\n| ", " | d |\n"), ("para-start", "", " starts the paragraph.\n")];
+    for (an, a) in atoms.iter() { for (wn, wl, wr) in wraps.iter() { for (fname, pre, post) in frames.iter() {
+      if an == wn { continue; }
+      let src = format!("{}{}{}{}{}", pre, wl, a, wr, post);
+      out.push(Case { id: format!("forms;family=prose;atom={};wrap={};frame={}", an, wn, fname), cell: format!("forms;family=prose;atom={};wrap={};frame={}", an, wn, fname), input: json!({"src": src, "syntax_only": true}) });
+    } } }
     for (i, src) in ["x := -a", "x := !a", "x := ¬a", "x := a'", "x := -a'", "x := -(a + b)", "x := !(a && b)", "x := (a + b)'", "x := -a ^ 2", "x := (-a) ^ 2", "x := -(a ^ 2)", "x := a ^ -b", "x := - a", "x := a'[1]", "x := -a[1]", "x := -f(a)", "x := !a.b", "x := a.b'"].iter().enumerate() {
       out.push(Case { id: format!("forms;family=unary;n={}", i), cell: "forms;family=unary".into(), input: json!({"src": src, "syntax_only": true}) });
     }
